@@ -53,6 +53,11 @@ def step (st : St) (line : String) : St × List String :=
   match words line with
   | [] => (st, [])
   | "case" :: rest => ({}, [String.intercalate " " ("case" :: rest)])
+  | "la" :: _ =>
+    -- end-to-end look-ahead scenario (slice `lookahead`): the bound the real client must respect is the
+    -- model's `c20_lookahead` (≤ n+1 queued segments while one is processed); the harness's direct oracle
+    -- evaluates it on the request log, the driver only echoes the scenario.
+    (st, [s!"la bound={Hls.Gen.waitBelowArg + 2}"])
   | "init" :: rest =>
     if st.started then (st, ["bad-op"])
     else match parseInit st rest with
